@@ -13,7 +13,7 @@ RULE_TEXT = "obligation = (rule, proto type or construct); evaluations = abstrac
 
 
 def run(ctx) -> None:
-    for name, fn in (("T1", codec.rule_T1), ("T2", codec.rule_T2), ("T2b", codec.rule_T2b), ("T3", codec.rule_T3), ("T4", codec.rule_T4), ("T5", codec.rule_T5), ("Z1", codec.rule_Z1)):
+    for name, fn in (("T1", codec.rule_T1), ("T2", codec.rule_T2), ("T2b", codec.rule_T2b), ("T3", codec.rule_T3), ("T4", codec.rule_T4), ("T5", codec.rule_T5), ("Z1", codec.rule_Z1), ("T6", codec.rule_T6)):
         ctx.rules_run.append(name)
         fn(ctx)
     ctx.rules_run.append("D2")
